@@ -10,7 +10,7 @@ from . import byt, tok
 from .c10 import expected_block
 
 I = z3.Int
-BOUNDS = {"quick": dict(K=5), "thorough": dict(K=8)}
+BOUNDS = {"quick": dict(K=5), "thorough": dict(K=7)}
 OPS = ["read", "rewind", "data"]
 
 
